@@ -252,13 +252,20 @@ def run(ctx: Ctx) -> None:
                 if n == 3 and ts[0] != pairs[1]:
                     continue  # keep the 3-ary cases to a slice
                 n_cases += 1
+                operands = [(set(d), set(m)) for d, m in ts]
                 try:
-                    out = ev.run_function(aj, {ps[0]: selfa, va: [(set(d), set(m)) for d, m in ts]})
+                    out = ev.run_function(aj, {ps[0]: selfa, va: operands})
                 except Unsupported as e:
                     und = str(e)
                     break
                 want = (set.intersection(*[d for d, _ in ts]), set.union(*[m for _, m in ts]))
                 got = out[1] if out[0] == "return" else out
+                if isinstance(got, Opaque):
+                    und = f"join result not evaluable: {got!r}"
+                    break
+                if [(set(d), set(m)) for d, m in ts] != operands:
+                    bad.append({"incoming": [[sorted(d), sorted(m)] for d, m in ts], "problem": "join modifies its operands (the stored values of other blocks)"})
+                    continue
                 if not (isinstance(got, (tuple, list)) and len(got) == 2 and set(got[0]) == want[0] and set(got[1]) == want[1]):
                     bad.append({"incoming": [[sorted(d), sorted(m)] for d, m in ts], "join": repr(got), "want": [sorted(want[0]), sorted(want[1])]})
             if und:
@@ -289,12 +296,21 @@ def run(ctx: Ctx) -> None:
         for n in (0, 1, 2, 3):
             for ts in _it.product(doms, repeat=n):
                 n_cases += 1
+                operands = [dict(t) for t in ts]
                 try:
-                    out = ev.run_function(lj, {ps[0]: Tok("self", __ident__=1), va: [dict(t) for t in ts]})
+                    out = ev.run_function(lj, {ps[0]: Tok("self", __ident__=1), va: operands})
                 except Unsupported as e:
                     und = str(e)
                     break
                 got = out[1] if out[0] == "return" else None
+                if isinstance(got, Opaque):
+                    und = f"join result not evaluable: {got!r}"
+                    break
+                if operands != [dict(t) for t in ts]:
+                    # the operands are the values stored for other blocks: changing them in place changes those blocks'
+                    # results without re-queuing their dependants, and makes the outcome depend on the visit order
+                    bad.append({"incoming": [dict(t) for t in ts], "after_join": operands, "problem": "join modifies its operands (the stored values of other blocks)"})
+                    continue
                 want = set().union(*[set(t) for t in ts]) if ts else set()
                 # keys = union; each value is a block in which some input says the variable is used
                 if not (isinstance(got, dict) and set(got) == want and all(any(t.get(k) == v for t in ts) for k, v in got.items())):
